@@ -97,4 +97,40 @@ open Rtosc.Save.Example in
 example : exApp.load exFile.reverse exApp.init = exApp.load exFile exApp.init :=
   kahn_perm_invariant_state exApp ex_wf ex_covers ex_ranked exFile exFile.reverse (List.reverse_perm _).symm exFile_ok _
 
+/-! ### non-vacuity for a sub-tree enabled by a toggle of its own (`rRecur(s, rEnabledBy(s/t))`, the construct
+    behind C13-F26): the hypotheses hold for `SelfExample.sApp`; its savefile lists `/s/a` before `/s/t`. -/
+open Rtosc.Save.SelfExample in
+/-- a path never waits for itself (fixes/C13-scan-deps-self-edge): the toggle's line gets no edge to itself -/
+theorem refsOf_not_self (ap : Path → Option DepMeta) (X : Path) : X ∉ refsOf ap X := by
+  intro h
+  have := (List.mem_filter.1 h).2
+  simp at this
+
+open Rtosc.Save.SelfExample in
+/-- the line of the toggle must precede the line of the parameter it enables -/
+example : sApp.lineLt ⟨"/s/t".toList, .plain [.bool true]⟩ ⟨"/s/a".toList, .plain [.int 7]⟩ :=
+  ⟨0, by decide, 1, by decide, by decide⟩
+
+open Rtosc.Save.SelfExample in
+example : sApp.load sFile.reverse sApp.init = sApp.load sFile sApp.init :=
+  kahn_perm_invariant_state sApp s_wf s_covers s_ranked sFile sFile.reverse (List.reverse_perm _).symm sFile_ok _
+
+open Rtosc.Save.SelfExample in
+/-- Kahn's algorithm outputs both lines of that file, the toggle first -/
+example : ∃ deps order, dependees sApp.apropos scanFuel (sFile.map (·.addr)) = some deps ∧ kahn deps = some order ∧
+    order.Perm (List.range sFile.length) :=
+  let ⟨deps, order, h1, h2, h3, _⟩ := dependent_port_applied_first sApp s_wf s_covers s_ranked sFile (by decide)
+    (by intro l hl; simp [sFile] at hl; rcases hl with rfl | rfl <;> trivial)
+  ⟨deps, order, h1, h2, h3⟩
+
+/-- `rSelf(S, rEnabledBy(t))` in the table of `/s/` (asked from `App.apropos` as `/s/self:`; fixes/C13-scan-deps-self-port):
+    every port of the table, at any depth below it, refers to `/s/t`; `/s/t` itself and ports outside do not -/
+def selfSelfAp (p : Path) : Option DepMeta :=
+  if p = "/s/self:".toList then some ⟨some "t".toList, none, none⟩ else none
+
+example : refsOf selfSelfAp "/s/t".toList = [] := by decide
+example : refsOf selfSelfAp "/s/a".toList = ["/s/t".toList] := by decide
+example : refsOf selfSelfAp "/s/u/b".toList = ["/s/t".toList] := by decide
+example : refsOf selfSelfAp "/x".toList = [] := by decide
+
 end Rtosc.C13
